@@ -128,7 +128,9 @@ ApplyWrite(C, op) ==
 \* the table of strings a first serialisation fills in (None: not filled / not a string column)
 TableOf(C) == IF C.d.t = StrT THEN Some(ToSet(C.d.v)) ELSE None
 Refuses(C, tbl) == C.d.t = StrT /\ tbl # None /\ \E i \in DOMAIN C.d.v : C.d.v[i] \notin tbl[1]
-\* what one serialisation gives back when it is read again: [oc, c]; "none" for operations that serialise nothing
+\* what one serialisation gives back when it is read again: [oc, c]; "none" for operations that serialise nothing;
+\* "ok": the column c; "values" (compress): the rows and the mask of c, integer data in whichever integer type
+\* compress() chose (it stores integers in the smallest type that holds them)
 Out(oc, C) == [oc |-> oc, c |-> C]
 
 (* One step of the life of a column object.  acc = [c: content, tbl: string table of its encoding, ser: it was
@@ -142,7 +144,7 @@ Step(acc, op) ==
                            \cup (IF r.wrote /\ ~r.samedt THEN {"PlaceholderIntoOtherDtype"} ELSE {})
                            \cup (IF ~r.wrote /\ Masked(C) # {} THEN {"AccessWithoutWrite"} ELSE {})]
   ELSE IF op[1] = "compress"
-  THEN [acc EXCEPT !.outs = Append(@, Out("ok", C)),
+  THEN [acc EXCEPT !.outs = Append(@, Out("values", C)),
                    !.s = @ \cup (IF Masked(C) # {} THEN {"AccessWithoutWrite"} ELSE {})]
   ELSE IF op[1] \in {"serialize", "write"}
   THEN IF Refuses(C, acc.tbl)
